@@ -118,3 +118,15 @@ Definition freshb (s : repo) (log : list op) : bool :=
   nodupb (wpacks log) && nodupb (widxs log)
   && forallb (fun id => negb (present id (packs s))) (wpacks log)
   && forallb (fun id => negb (present id (idxs s))) (widxs log).
+
+(* ---- error propagation ---- *)
+(* a command as the sequence of its storage call sites: `props` says for each site whether its
+   result is handed on (`?` / tail expression), `outcomes` whether the call succeeded; the command
+   returns Ok iff no site that hands its result on failed (a failing site whose result is dropped
+   goes unnoticed) *)
+Fixpoint run_sites (props outcomes : list bool) : bool :=
+  match props, outcomes with
+  | p :: ps, o :: os => if o then run_sites ps os else if p then false else run_sites ps os
+  | _, _ => true
+  end.
+Definition all_true (l : list bool) : bool := forallb (fun b => b) l.
